@@ -148,6 +148,9 @@ def check(an: Analysis) -> None:
         live = [s for s in stores if s.id in reach]
         if not live:
             ob.fail(srec, None, f"no store reachable when a previous value is {'present' if present else 'absent'}")
+        reach_exc = gs.reachable([gs.entry], skip_edge=sc.skip)
+        for st in [s for s in stores if s.id in reach_exc and s.id not in reach]:
+            ob.fail(srec, st.ast, "a store that is reached only after something failed (e.g. a raising merge function): the value recorded so far must stay what the fold of the successful merges produced, a failing record leaves it untouched")
         for st in live:
             v = unwrap(st.ast.value)  # type: ignore[union-attr]
             alts = [v]
@@ -210,6 +213,16 @@ def check(an: Analysis) -> None:
         raise AnalysisError(f"only {len(uses)} uses of ScopeMetrics._nested found (confirmed: 6)")
     mf = prog.fn(f"{SM}.metrics")
     dm = Deps(prog, mf)
+    # the merged view depends on the merge function: nothing computed with it may be kept on the scope without being keyed by it
+    for n in mf.own_nodes():
+        if isinstance(n, (ast.Assign, ast.AnnAssign)) and getattr(n, "value", None) is not None:
+            for t in n.targets if isinstance(n, ast.Assign) else [n.target]:
+                root = t.value if isinstance(t, ast.Subscript) else t
+                if isinstance(root, ast.Attribute) and "param:self" in dm.origins(root.value) | ({"param:self"} if is_name(root.value, "self") else set()):
+                    uses_merge = "param:merge" in dm.of(n.value)
+                    keyed = isinstance(t, ast.Subscript) and "param:merge" in dm.of(t.slice)
+                    if uses_merge and not keyed:
+                        ob.fail(mf, n, "a merged view is kept on the scope without being keyed by the merge function it was computed with: later views with another merge function (of this scope and of its ancestors) silently reuse it")
     merges = [c for c in mf.own_nodes() if isinstance(c, ast.Call) and is_name(c.func, "merge")]
     if len(merges) != 1:
         ob.fail(mf, None, f"metrics() applies the merge function at {len(merges)} sites (expected one)")
